@@ -1,3 +1,62 @@
-(* C04 - placeholder while the invariant is built *)
-From Tramp Require Import Model.Base Model.Sys.
-Theorem C04_placeholder : True. Proof. exact I. Qed.
+(* C04 — the outgoing payment always expires safely before the incoming HTLCs funding it.
+
+   "For every pay request, the maximum route delay granted is at most (lowest absolute expiry among the
+    incoming HTLCs funding it, i.e. those held when the payment was initiated - chain height known at
+    that time - configured safety delta), floored at zero, and never above the policy's CLTV delta. An
+    HTLC whose relative expiry is below the policy delta and that arrives before its set is fully funded
+    causes the set to be rejected rather than paid."
+
+   "Initiated" = the step in which the lifecycle leaves the select! and issues the in-flight marker
+   (QWriteState .. (DPending a t)); the parameters are fixed there (pc PAdd1), travel unchanged through
+   PAdd2 to the pay request (C04_values_travel), and the height used is the one of that step. *)
+From Tramp Require Import Model.Base Model.Fee Model.Classify Model.Node Model.Provider Model.Sys.
+From Tramp Require Import Proofs.SysBasics Proofs.EntryProofs Proofs.SysEntry Proofs.SysShape Proofs.SysTheorems Proofs.SysTimers Proofs.SysReach.
+From Coq Require Import ZifyBool ZifyN.
+
+Theorem C04_initiation : forall c s ev cid a t,
+  reachable c s -> In (OCall cid (QWriteState CreateOrReplace None (DPending a t))) (snd (step c s ev)) ->
+  exists en fq i x am mf md,
+    entry_seen c s ev = Some en /\
+    entry_ (pl (fst (step c s ev))) = Some (set_queues en false fq) /\
+    nth_error (lcs (pl (fst (step c s ev)))) i = Some x /\ l_pc x = PAdd1 cid a am mf md /\
+    (* the delay granted: min over the HTLCs held now, height of this step, safety delta, floored at zero, capped *)
+    md = N.min (clamp16 ((min_expiry (listeners en) - height s) - cltv_delta c)) (pol_delta (pol c)) /\
+    md <= pol_delta (pol c) /\ md <= (min_expiry (listeners en) - height s) - cltv_delta c /\
+    t = now s /\ a = next_att (pl s).
+Proof.
+  intros c s ev cid a t Hr Hin. destruct (reachable_inv c s Hr) as (HU & HE & _).
+  destruct (attempt_start_facts c s ev cid a t HU HE Hin) as (en & fq & i & x & A & B & C & D & E & F & G & H & I & J).
+  rewrite I in E. exists en, fq, i, x. eexists _, _, _. repeat split; eauto; unfold clamp16; lia.
+Qed.
+
+Theorem C04_values_travel : forall c li base tnow p cid y sh,
+  lc_shape c li base tnow p cid y = Some sh ->
+  (forall k a am mf md, p = PAdd1 k a am mf md -> forall g, y = YGen g -> sh = LKeep (PAdd2 base a g am mf md) [QWriteAtt MustCreate a false false (li_deliver li) (li_blob li)] [] []) /\
+  (forall k a g am mf md, p = PAdd2 k a g am mf md -> y = YUnit -> sh = LKeep (PPay base a g) [QPay (li_blob li) am mf md (retry_for c)] [] []).
+Proof. exact pay_values_travel. Qed.
+
+(* never above the policy delta, at the pay request itself *)
+Theorem C04_capped_at_pay : forall c s ev cid b am mf md rt,
+  reachable c s -> In (OCall cid (QPay b am mf md rt)) (snd (step c s ev)) -> md <= pol_delta (pol c).
+Proof.
+  intros c s ev cid b am mf md rt Hr Hin. destruct (reachable_inv c s Hr) as (HU & HE & _).
+  destruct (pay_request_facts c s ev cid b am mf md rt HU HE Hin) as (en & _ & _ & _ & _ & _ & _ & _ & H & _). exact H.
+Qed.
+
+(* a rejecting HTLC (too low relative expiry is one of the gates) arriving before the set is funded dooms the set:
+   the doomed set is never paid — no attempt is started while it lives *)
+Theorem C04_low_expiry_rejects : forall c s h e,
+  reachable c s -> entry_ (pl s) = Some e ->
+  (rel h <? Z.of_N (pol_delta (pol c)))%Z = true -> rdy_q e = false ->
+  (forall i x, nth_error (lcs (pl s)) i = Some x -> attached (l_pc x) = true -> prepay (l_pc x) = true) ->
+  entry_ (pl (fst (step c s (EvHtlc h)))) = None \/ Doomed (fst (step c s (EvHtlc h))).
+Proof.
+  intros c s h e Hr He Hrel Hq Hpre. destruct (reachable_inv c s Hr) as (HU & HE & _).
+  apply (rejection_dooms c s h e HU HE He); auto. unfold gate_rejects. rewrite Hrel. rewrite orb_true_r. reflexivity.
+Qed.
+
+Theorem C04_doomed_never_paid : forall c s ev,
+  reachable c s -> Doomed s ->
+  (forall cid q, In (OCall cid q) (snd (step c s ev)) -> is_attempt_start q = false) /\
+  (entry_ (pl (fst (step c s ev))) = None \/ Doomed (fst (step c s ev))).
+Proof. intros c s ev Hr Hd. destruct (reachable_inv c s Hr) as (HU & HE & _). exact (doomed_step c s ev HU HE Hd). Qed.
